@@ -1,7 +1,7 @@
 """C09 - every rule form counts its parent correctly from its children, with parameters."""
 from collections import Counter
 
-from vf import ruleforms
+from vf import ruleforms, speccheck
 from vf.oracles import brute
 from vf.runner import SubCheck, describe_exc
 
@@ -101,7 +101,7 @@ def run_case(case, ctx, tier="quick"):
         for params in cls.possible_parameters(n):
             key = tuple(params[k] for k in names)
             try:
-                c = form.count_objects_of_size(n, **params)
+                c = form.count_objects_of_size(n, **speccheck.any_order(params, n))
             except Exception as e:
                 ctx.fail("count", f"count_objects_of_size({n}, {params}) raised {describe_exc(e)}", f"count/raises/{type(e).__name__}")
                 return
